@@ -188,6 +188,11 @@ def mk_container(ex, u, path, cls, allowed, pre, photon=False):
         cell.fields["_array"] = ex.st.alloc(HArr((ROWS, COLS), sym_dtype(ex, "old_dtype", allowed), lambda ix: VFloat(f(z_int(ix[0]), z_int(ix[1])))))
     elif pre == "3d":
         cell.fields["_array"] = mk_xr(ex, "old3d", valid=True)
+    # HISTORY: whatever boolean flags the constructor sets up besides the content (a "warned once" / "checked" / "dirty" marker) may have
+    # either value after earlier operations on the container: every such flag is an arbitrary boolean in the pre-state
+    for fname, fval in list(cell.fields.items()):
+        if fname != "_array" and isinstance(fval, VBool):
+            cell.fields[fname] = VBool(z3.Bool(f"flag{fname}_after_earlier_operations"))
     ex.self_ref = ref
     ex.pre_array = cell.fields["_array"]
     if isinstance(ex.pre_array, VRef):
@@ -303,9 +308,16 @@ warnings.simplefilter('ignore')
 base = {native_value(w)}
 VIOLATED, DETAIL = False, 'no candidate element pattern left a negative count stored'
 pats = [[-1.0], [-5.0, 1.0], [float('nan'), -5.0], [-5.0, float('nan')], [float('-inf'), 0.0], [float('inf'), -1e-3], [float('nan'), float('-inf')], [-1e-30, 0.0]]
-for pat in pats:
+for pat in pats + pats:
     det = N.detector({rows}, {cols})
     c = det.photon
+    if pat is pats[0] or len(pats) and pats.index(pat) % 2:          # HISTORY: an earlier assignment of a frame with negative values, then a reset
+        with warnings.catch_warnings():
+            warnings.simplefilter('ignore')
+            try:
+                c.array = np.full(({rows}, {cols}), -3.0); c.empty()
+            except Exception:
+                pass
     {pre}
     value = base.copy()
     try:
@@ -547,6 +559,8 @@ def _photon_units():
                                 u.oblige(p, f"assign.nonneg[Photon.{opname}:{pre},{kind}]", a.info["nonneg"], w, replay_nonneg(op_code), info=info)
             u.cover(f"cover[Photon.{opname}]", [1] * n_ok, lambda _: True)
         unit("C13", f"Photon.{opname}")(un)
+        if opname == "array.setter":
+            globals()["PHOTON_SETTER_UNIT"] = un
 
 
 _photon_units()
